@@ -343,8 +343,10 @@ def checkTiming (cfg : Cfg) (a : A) (evs : List Ev) : A :=
           else a.chk (a.pubT.any (·.1 == e.1)) "C18" s!"TIMING_MESSAGE attributes {e.2} messages to type {e.1}, none was handled") a
       -- process ids of connected modules with a non-zero id held by a single module
       a.mods.foldl (fun a m =>
+        -- a module closed in the same stretch of events may have been dropped *by* the report's own delivery,
+        -- i.e. after the payload was built: it still counts as a holder of its id
         if m.alive && m.connected && m.modId != 0 && m.pid != 0 &&
-           ((a.mods.filter (fun o => o.alive && o.modId == m.modId)).length == 1) then
+           ((a.mods.filter (fun o => (o.alive || (closes evs).contains o.uid) && o.modId == m.modId)).length == 1) then
           a.chk (ps.contains (m.modId, m.pid)) "C18" s!"TIMING_MESSAGE does not report pid {m.pid} for module id {m.modId}"
         else a) a
     | _ => a) a
